@@ -1378,6 +1378,11 @@ func NewByronMainBlockFromCbor(
 	if _, err := cbor.Decode(data, &byronMainBlock); err != nil {
 		return nil, fmt.Errorf("decode Byron main block error: %w", err)
 	}
+	// A block without a header cannot be used, whether or not the body
+	// proof is validated
+	if byronMainBlock.BlockHeader == nil {
+		return nil, errors.New("byron main block header is nil")
+	}
 	// Bind the body to the header. Without this the header, and so the
 	// block hash, can be genuine while the body has been substituted.
 	//
